@@ -20,11 +20,12 @@ import (
 // the generator's own mirror tree.
 
 type c13m struct { // mirror node
-	id   int
-	kind int // 0 terminal, 1 empty, 2 nonterminal, 3 list (root only)
-	kids []*c13m
-	caps int // bit0 checker, bit1 transformer
-	node parsley.Node
+	noInterp bool
+	id       int
+	kind     int // 0 terminal, 1 empty, 2 nonterminal, 3 list (root only)
+	kids     []*c13m
+	caps     int // bit0 checker, bit1 transformer
+	node     parsley.Node
 }
 
 type c13world struct {
@@ -33,6 +34,9 @@ type c13world struct {
 	log    []string
 	failAt int
 	byNode map[parsley.Node]*c13m
+	// allowNil: generate non-terminals without an interpreter; hasNil: the tree contains one
+	allowNil bool
+	hasNil   bool
 }
 
 type c13interp struct {
@@ -105,15 +109,27 @@ func (w *c13world) gen(d int) *c13m {
 	m.caps = w.r.Intn(4)
 	var ip parsley.Interpreter
 	base := c13interp{w, m}
-	switch m.caps {
-	case 0:
-		ip = base
-	case 1:
-		ip = c13interpC{base}
-	case 2:
-		ip = c13interpT{base}
-	case 3:
-		ip = c13interpCT{c13interpC{base}}
+	if w.allowNil && w.r.Intn(5) == 0 {
+		// a non-terminal WITHOUT any interpreter (a sequence that was never bound): legal for Walk,
+		// StaticCheck and Transform; only evaluation needs an interpreter on every non-terminal
+		m.caps = 0
+		m.noInterp = true
+		w.hasNil = true
+	}
+	switch {
+	case m.noInterp:
+		ip = nil
+	default:
+		switch m.caps {
+		case 0:
+			ip = base
+		case 1:
+			ip = c13interpC{base}
+		case 2:
+			ip = c13interpT{base}
+		case 3:
+			ip = c13interpCT{c13interpC{base}}
+		}
 	}
 	n := w.r.Intn(5)
 	if n == 0 {
@@ -171,6 +187,7 @@ func c13exec(j run.Job, a *run.Acc) {
 			continue
 		}
 		w := &c13world{r: rand.New(rand.NewSource(caseSeed)), failAt: -1, byNode: map[parsley.Node]*c13m{}}
+		w.allowNil = caseSeed%3 == 0
 		depth := 1 + w.r.Intn(6)
 		root := w.gen(depth)
 		var order []*c13m // post-order of the tree that Walk is expected to follow
@@ -283,7 +300,7 @@ func c13exec(j run.Job, a *run.Acc) {
 		}
 
 		// ---- evaluation hands each interpreter exactly its node and the user context
-		if root.kind == 2 && !listRoot {
+		if root.kind == 2 && !listRoot && !w.hasNil {
 			var nts []*c13m
 			var pre func(m *c13m)
 			var wantE []string
